@@ -86,8 +86,8 @@ Definition as_tx (t : term) : option stib :=
   match t with
   | TL (TS _ :: r) =>
     match map_opt as_N r with
-    | Some [id; snd; rcv; amt; cl; fee; fv; lv; gok; len] =>
-      Some (mkTxn id snd rcv amt cl fee fv lv (negb (gok =? 0)) len, ad0)
+    | Some [id; snd; rcv; amt; cl; fee; fv; lv; gok; len; gidok] =>
+      Some (mkTxn id snd rcv amt cl fee fv lv (negb (gok =? 0)) len (negb (gidok =? 0)), ad0)
     | _ => None
     end
   | _ => None
